@@ -33,6 +33,15 @@ func envOr(k, d string) string {
 
 func Root() string { return envOr("VERIF_ROOT", "/verif") }
 
+// evidenceDir: runs against a scratch copy of the repository (VERIF_REPO set to something other than /repo, i.e. a
+// mutant demonstration) must not overwrite the evidence of the real tree.
+func evidenceDir() string {
+	if r := os.Getenv("VERIF_REPO"); r != "" && r != "/repo" {
+		return filepath.Join(Root(), ".work", "alt-evidence")
+	}
+	return filepath.Join(Root(), "evidence")
+}
+
 // Violation is one broken-oracle observation.
 type Violation struct {
 	Property string   `json:"property"`
@@ -208,8 +217,8 @@ func (r *Run) Finish() int {
 	r.mu.Lock()
 	defer r.mu.Unlock()
 	wall := time.Since(r.start).Seconds()
-	root := Root()
-	_ = os.MkdirAll(filepath.Join(root, "evidence", "replay"), 0o755)
+	evdir := evidenceDir()
+	_ = os.MkdirAll(filepath.Join(evdir, "replay"), 0o755)
 
 	// known findings
 	ids := make([]string, 0, len(r.knownHits))
@@ -224,13 +233,13 @@ func (r *Run) Finish() int {
 
 	replayPaths := []string{}
 	if *FlagReplay == "" {
-		old, _ := filepath.Glob(filepath.Join(root, "evidence", "replay", r.Property+"-*.json"))
+		old, _ := filepath.Glob(filepath.Join(evdir, "replay", r.Property+"-*.json"))
 		for _, o := range old {
 			os.Remove(o)
 		}
 	}
 	for i, v := range r.violations {
-		p := filepath.Join(root, "evidence", "replay", fmt.Sprintf("%s-%d.json", r.Property, i+1))
+		p := filepath.Join(evdir, "replay", fmt.Sprintf("%s-%d.json", r.Property, i+1))
 		if *FlagReplay != "" {
 			p = *FlagReplay
 		} else {
@@ -302,7 +311,7 @@ func (r *Run) Finish() int {
 	}
 	if *FlagReplay == "" && *FlagPart == "" {
 		b, _ := json.MarshalIndent(ev, "", " ")
-		if err := os.WriteFile(filepath.Join(root, "evidence", r.Property+".json"), b, 0o644); err != nil {
+		if err := os.WriteFile(filepath.Join(evdir, r.Property+".json"), b, 0o644); err != nil {
 			fmt.Printf("HARNESS-ERROR cannot write evidence: %v\n", err)
 			return 2
 		}
